@@ -45,6 +45,7 @@ static const double TUP[4][8] = {{0.5, 1.25, -2.0, 3.0, -0.75, 1.5, -1.0, 2.5}, 
 // ------------------------------------------------------------------------------------------------ C15
 static void mod_poly()
 {
+    vx::mark("mod_poly");
     for (const double *t : {TUP[0], TUP[1], TUP[2], TUP[3]})
     {
         a_real ts = (a_real)std::fabs(t[0]) + (a_real)0.5;
@@ -125,6 +126,7 @@ static void mod_poly()
 // ------------------------------------------------------------------------------------------------ C14
 static void mod_traj()
 {
+    vx::mark("mod_traj");
     // feasible requests with pairwise distinct magnitudes: (limits..., p0, p1, v0, v1)
     static const double TR[4][7] = {{3, 2, -1.5, 0.25, 4.5, 0.5, 0.75}, {2, 1.5, -2.5, -1, 6, 0.25, 1.25}, {1.5, 3, -2, 5, -2.5, -0.5, -0.25}, {4, 1, -3, 0, 9, 1.5, 0.5}};
     for (const double *t : {TR[0], TR[1], TR[2], TR[3]})
@@ -177,6 +179,7 @@ static void mod_traj()
 // ------------------------------------------------------------------------------------------------ C16
 static void mod_filt()
 {
+    vx::mark("mod_filt");
     static const a_real NUM[3] = {(a_real)0.5, (a_real)-0.25, (a_real)2}, DEN[2] = {(a_real)0.125, (a_real)-0.75};
     a_real in1[3], out1[2], in2[3], out2[2];
     for (int k = 0; k < 3; ++k) { in1[k] = in2[k] = 77; }
@@ -243,6 +246,7 @@ static void mod_filt()
 // ------------------------------------------------------------------------------------------------ C12
 static void mod_pid()
 {
+    vx::mark("mod_pid");
     static const double IN[6][2] = {{1, 0.25}, {-0.5, 0.75}, {2, -1}, {0.125, 1.5}, {-1, -0.25}, {0.5, 0.5}};
     for (int mode = 0; mode < 3; ++mode)
     {
